@@ -195,8 +195,6 @@ func postUnlock() {
 	if !s.unlOn || s.Tape.Choose(s.PreemptDen) != 1 {
 		return
 	}
-	s.Preemptions++
 	s.UnlockYields++
-	s.release(t, stInOp)
-	s.acquire(t)
+	s.preempt(t)
 }
